@@ -133,8 +133,9 @@ def check(ctx):
     nl = col(NU, "last_election_results_")
     okp = False
     detail = f"prediction before the floor is {ir.show(g, maxdepth=4)}"
-    if g[0] == "bin" and g[1] == "+" and g[3] == nl and g[2][0] == "bin" and g[2][1] == "*" and g[2][3] == nl:
-        p = g[2][2]
+    pcand = [pp for a_, b_ in ir.comm(g, "+") if b_ == nl for pp, q_ in ir.comm(a_, "*") if q_ == nl]
+    if pcand:
+        p = pcand[0]
         while p[0] == "call" and p[1][0] == "attr" and p[1][2] == "flatten":
             p = p[1][1]
         hold = None
